@@ -30,6 +30,11 @@
     (after any comments and blank lines) at `namespace n1 :: … :: nk {` finds the doc text with
     `get_doxygen`, opens one block with exactly the written names and that doc text, changes
     nothing else of the parser state and hands NO doc text to the next iteration.
+  * `C12_toplevel_namespace_opens`, `C12_toplevel_extern_opens`, `C12_toplevel_semicolon`: the same
+    iterations down to the callback — with an active visitor that does not raise here, the
+    header delivers exactly ONE start callback for a new block (fresh id, child of the innermost
+    open block, the written names / linkage, the doc text found) and pushes exactly that block
+    (`pushedWorld`); a lone `;` changes nothing.
 -/
 import CxxModel.SimpleFold
 import CxxModel.Parser.Decl
@@ -166,7 +171,7 @@ theorem C12_toplevel_namespace (env : Env) (hc : env.cfg = genLexCfg) (F : Nat) 
     ∃ (d : Option String) (bD : Buf) (w' : World) (ct : CTok),
       getDoxygen env.cfg env.mcRe w.buf = .ok (d, bD) ∧ w'.buf = b' ∧
       w'.stack = w.stack ∧ w'.events = w.events ∧ w'.delivered = w.delivered ∧ w'.anon = w.anon ∧ w'.muted = w.muted ∧
-      w'.mainTok = some ct ∧ ct.value = kw.value ∧
+      w'.nextId = w.nextId ∧ w'.mainTok = some ct ∧ ct.value = kw.value ∧
       interp env (P.mainBody F c none) w =
         match interp env (P.nsFinish (.tok ct.sidx) d false (first.value :: pairs.map (·.2.value)) none) w' with
         | (w3, .ok ()) => (w3, .ok (.inl none))
@@ -196,5 +201,44 @@ example (cfg : LexCfg) :
       (.cons (tokenEofOk_pop cfg _ _ [tk "COMMENT_MULTILINE" "/* c */", tk "NAME" "b", tk "NEWLINE" "\n", tk "{" "{"] (by decide))
         (.cons (tokenEofOk_pop cfg _ _ [tk "NEWLINE" "\n", tk "{" "{"] (by decide))
           (.cons (tokenEofOk_pop cfg _ _ [] (by decide)) (.nil _)))))
+
+section
+open P
+
+theorem C12_toplevel_namespace_opens (env : Env) (hc : env.cfg = genLexCfg) (F : Nat) (c : Core) (w : World)
+    (kw first : Tok) (pairs : List (Tok × Tok)) (ob : Tok) (b' : Buf)
+    (blk : Block) (rest : List Block) (hstack : w.stack = blk :: rest) (hk : blk.view.kind ≠ .cls)
+    (hmu : w.muted = false) (hfa : ¬ env.faultAt = some w.delivered)
+    (hkw : kw.type = "namespace") (hf : first.type = "NAME")
+    (hall : ∀ p ∈ pairs, p.1.type = "DBL_COLON" ∧ p.2.type = "NAME") (hob : ob.type = "{")
+    (hy : Yields env.cfg w.buf (kw :: first :: (pairs.flatMap (fun p => [p.1, p.2]) ++ [ob])) b')
+    (hF : pairs.length + 1 ≤ F) :
+    ∃ (d : Option String) (bD : Buf) (w' : World) (ct : CTok),
+      getDoxygen env.cfg env.mcRe w.buf = .ok (d, bD) ∧ w'.buf = b' ∧
+      w'.stack = w.stack ∧ w'.events = w.events ∧ w'.delivered = w.delivered ∧ w'.anon = w.anon ∧ w'.muted = w.muted ∧
+      w'.nextId = w.nextId ∧ ct.value = kw.value ∧
+      interp env (mainBody F c none) w =
+        (pushedWorld env { kind := .ns, loc := .tok ct.sidx, ns := { names := first.value :: pairs.map (·.2.value), inline := false, doxygen := d } } w',
+          .ok (.inl none)) :=
+  toplevel_namespace_opens env (by rw [hc]; exact gen_rules_progress) F c w kw first pairs ob b' blk rest hstack hk hmu hfa hkw hf hall hob hy hF
+
+theorem C12_toplevel_extern_opens (env : Env) (hc : env.cfg = genLexCfg) (F : Nat) (c : Core) (w : World)
+    (kw str ob : Tok) (b' : Buf) (blk : Block) (rest : List Block) (hstack : w.stack = blk :: rest) (hk : blk.view.kind ≠ .cls)
+    (hmu : w.muted = false) (hfa : ¬ env.faultAt = some w.delivered)
+    (hkw : kw.type = "extern") (hs : str.type = "STRING_LITERAL") (hob : ob.type = "{")
+    (hy : Yields env.cfg w.buf [kw, str, ob] b') :
+    ∃ (w' : World) (ct e : CTok), w'.buf = b' ∧ w'.stack = w.stack ∧ w'.events = w.events ∧ w'.anon = w.anon ∧
+      w'.muted = w.muted ∧ w'.delivered = w.delivered ∧ w'.nextId = w.nextId ∧ ct.value = kw.value ∧ e.value = str.value ∧
+      interp env (mainBody F c none) w =
+        (pushedWorld env { kind := .ext, loc := .tok ct.sidx, linkage := e.value } w', .ok (.inl none)) :=
+  toplevel_extern_opens env (by rw [hc]; exact gen_rules_progress) F c w kw str ob b' blk rest hstack hk hmu hfa hkw hs hob hy
+
+theorem C12_toplevel_semicolon (env : Env) (hc : env.cfg = genLexCfg) (F : Nat) (c : Core) (w : World) (t : Tok) (b1 : Buf)
+    (ht : tokenEofOk env.cfg w.buf = .ok (some t, b1)) (hty : t.type = ";") :
+    ∃ (wA : World) (ct : CTok), SameParse w wA ∧ wA.buf = b1 ∧ ct.value = t.value ∧
+      interp env (mainBody F c none) w = ({ wA with mainTok := some ct }, .ok (.inl none)) :=
+  toplevel_semicolon env (by rw [hc]; exact gen_rules_progress) F c w t b1 ht hty
+
+end
 
 end Cxx
